@@ -214,12 +214,37 @@ theorem parseIdent_nsu_key (k : Nat) (u rest : Text) :
     | (simp only [Option.map_some, Option.map_none, nodeKey_newExpanded]; done)
     | (simp only []; split <;> simp only [Option.map_some, Option.map_none, nodeKey_newExpanded])
 
-theorem parseExpanded_nsu (u rest : Text) (tbl : List Text) (hu : 59 ∉ u) :
-    parseExpanded ([110, 115, 117, 61] ++ u ++ 59 :: rest) (some tbl) =
-      match tbl.findIdx? (· == u) with
+theorem unescNsu_escNsu : ∀ (u : Text), unescNsu (escNsu u) = u
+  | [] => rfl
+  | c :: r => by
+    have ih := unescNsu_escNsu r
+    simp only [escNsu]
+    split
+    · rename_i h; subst h; simp [unescNsu, ih]
+    · split
+      · rename_i h; subst h; simp [unescNsu, ih]
+      · rename_i h1 h2; simp [unescNsu, h2, ih]
+
+theorem escNsu_no_semicolon : ∀ (u : Text), 59 ∉ escNsu u
+  | [] => by simp [escNsu]
+  | c :: r => by
+    have ih := escNsu_no_semicolon r
+    simp only [escNsu]
+    split
+    · simp [ih]
+    · split
+      · simp [ih]
+      · rename_i h1 h2
+        simp only [List.mem_cons, not_or]
+        exact ⟨fun e => h1 e.symm, ih⟩
+
+/-- `nsu=<w>;<rest>` with no ';' in `w`: the table is searched for the unescaped `w` -/
+theorem parseExpanded_nsu (w rest : Text) (tbl : List Text) (hw : 59 ∉ w) :
+    parseExpanded ([110, 115, 117, 61] ++ w ++ 59 :: rest) (some tbl) =
+      match tbl.findIdx? (· == unescNsu w) with
       | none => none
-      | some k => parseIdent (k % 65536) u rest := by
-  have hno : (59 : Nat) ∉ 110 :: 115 :: 117 :: 61 :: u := by
+      | some k => parseIdent (k % 65536) (unescNsu w) rest := by
+  have hno : (59 : Nat) ∉ 110 :: 115 :: 117 :: 61 :: w := by
     intro h
     simp only [List.mem_cons] at h
     rcases h with e | e | e | e | h
@@ -227,15 +252,15 @@ theorem parseExpanded_nsu (u rest : Text) (tbl : List Text) (hu : 59 ∉ u) :
     · omega
     · omega
     · omega
-    · exact hu h
-  have hs : [110, 115, 117, 61] ++ u ++ 59 :: rest = (110 :: 115 :: 117 :: 61 :: u) ++ 59 :: rest := by simp
+    · exact hw h
+  have hs : [110, 115, 117, 61] ++ w ++ 59 :: rest = (110 :: 115 :: 117 :: 61 :: w) ++ 59 :: rest := by simp
   rw [hs]
-  have hpre : [115, 61].isPrefixOf ((110 :: 115 :: 117 :: 61 :: u) ++ 59 :: rest) = false := by
+  have hpre : [115, 61].isPrefixOf ((110 :: 115 :: 117 :: 61 :: w) ++ 59 :: rest) = false := by
     simp [List.isPrefixOf]
   simp only [parseExpanded, hpre, splitFirst_app _ hno]
   simp only [List.cons_append, reduceCtorEq, if_false, parseNs, List.isPrefixOf, beq_self_eq_true, Bool.and_self,
     Bool.true_and, if_true, List.drop_succ_cons, List.drop_zero]
-  cases tbl.findIdx? (· == u) <;> rfl
+  cases tbl.findIdx? (· == unescNsu w) <;> rfl
 
 theorem parseExpanded_nsIdx (k : Nat) (hk : k ≤ 65535) (rest : Text) (tbl : Option (List Text)) :
     parseExpanded ([110, 115, 61] ++ dec k ++ 59 :: rest) tbl = parseIdent k [] rest := by
